@@ -297,4 +297,177 @@ theorem dispatch_sim (H : Nat → Bool) (st : Static) (nodes : List AstNode) (d0
           exact const_recomputes_off H st nodes d0 d gc l nm e ne r (by rw [hsplit]; simp) hm.1 hm.2 ctx
     | _ => simp [markedS] at hm
 
+/-! ## one pass under the two settings -/
+
+/-- related pass states: the same but for the marks, and the stability flag as in `SimR` -/
+def SimPS (H : Nat → Bool) (first : Bool) (a b : PassSt) : Prop :=
+  b.defs = a.defs.unfS H ∧ b.it = a.it ∧ b.symCtx = a.symCtx ∧ b.reported = a.reported ∧
+    (b.stable = true → a.stable = true) ∧ (first = false → b.stable = a.stable)
+
+theorem passNode_sim (H : Nat → Bool) (st : Static) (nodes : List AstNode) (d0 : Defs) (f : FrontOK st nodes d0)
+    (fs : FrontOKS st nodes d0 H) (first last : Bool) (hfl : first = true → last = false)
+    (pre : List AstNode) (n : AstNode) (post : List AstNode) (hsplit : nodes = pre ++ n :: post)
+    (a b : PassSt) (k : Nat) (hkn : k < nodeElems n) (g : Good st nodes d0 a.defs) (gc : GoodC st nodes d0 a.defs H)
+    (hsc : stepCtx st a.symCtx n = ctxAfter st [] (pre ++ [n])) (hsim : SimPS H first a b) :
+    match passNode st first last a n k with
+    | .error m => passNode (st.withStatic false) first last b n k = .error m
+    | .ok a' => GoodC st nodes d0 a'.defs H ∧ ∃ b', passNode (st.withStatic false) first last b n k = .ok b' ∧ SimPS H first a' b' := by
+  obtain ⟨bd, bi, bs, bst, br⟩ := b
+  obtain ⟨h1, h2, h3, h4, h5, h6⟩ := hsim
+  simp only at h1 h2 h3 h4 h5 h6
+  subst h1 h2 h3 h4
+  rw [passNode_eq', passNode_eq']
+  have hn : ∀ d, nodeItem (st.withStatic false) d n k = nodeItem st d n k := fun d => rfl
+  have hs : stepCtx (st.withStatic false) a.symCtx n = stepCtx st a.symCtx n := rfl
+  have hb : (a.defs.unfS H).banks = a.defs.banks := rfl
+  simp only [hn, hs, nodeItem_us H, hb]
+  cases hv : visit a.defs.banks a.it (nodeItem st a.defs n k) with
+  | error e => rfl
+  | ok it =>
+    simp only
+    have hmem : n ∈ nodes := by rw [hsplit]; simp
+    have sim := dispatch_sim H st nodes d0 a.defs g gc pre n post hsplit
+      ⟨first, last, stepCtx st a.symCtx n, it.bank, it.pos⟩ hsc k hkn hfl
+    cases hd : dispatch st a.defs ⟨first, last, stepCtx st a.symCtx n, it.bank, it.pos⟩ n k with
+    | error m =>
+      rw [hd] at sim
+      have : dispatch (st.withStatic false) (a.defs.unfS H) ⟨first, last, stepCtx st a.symCtx n, it.bank, it.pos⟩ n k = .error m := sim
+      rw [this]
+    | ok x =>
+      obtain ⟨d1, s1, r1⟩ := x
+      rw [hd] at sim
+      obtain ⟨s2, e2, i1, i2⟩ := sim
+      rw [e2]
+      simp only
+      have hb1 : (d1.unfS H).banks = d1.banks := rfl
+      rw [nodeItem_us H, hb1]
+      cases ha : advance d1.banks it (nodeItem st d1 n k) with
+      | error e => rfl
+      | ok it' =>
+        simp only
+        refine ⟨dispatch_goodC st nodes d0 a.defs d1 H f fs n hmem _ k s1 r1 g gc hd, _, rfl, rfl, rfl, rfl, rfl, ?_, ?_⟩
+        · intro hh
+          simp only [Bool.and_eq_true] at hh ⊢
+          exact ⟨h5 hh.1, i1 hh.2⟩
+        · intro hf
+          simp only
+          rw [h6 hf, i2 hf]
+
+theorem go_sim (H : Nat → Bool) (st : Static) (nodes : List AstNode) (d0 : Defs) (f : FrontOK st nodes d0)
+    (fs : FrontOKS st nodes d0 H) (first last : Bool) (hfl : first = true → last = false)
+    (pre : List AstNode) (n : AstNode) (post : List AstNode) (hsplit : nodes = pre ++ n :: post) :
+    ∀ (fuel k : Nat) (a b : PassSt), k + fuel ≤ nodeElems n → Good st nodes d0 a.defs → GoodC st nodes d0 a.defs H →
+      stepCtx st a.symCtx n = ctxAfter st [] (pre ++ [n]) → PhaseOK st nodes d0 first pre a.defs → SimPS H first a b →
+      match passNodes.go st first last n k fuel a with
+      | .error e => passNodes.go (st.withStatic false) first last n k fuel b = .error e
+      | .ok a' => GoodC st nodes d0 a'.defs H ∧
+          ∃ b', passNodes.go (st.withStatic false) first last n k fuel b = .ok b' ∧ SimPS H first a' b' := by
+  intro fuel
+  induction fuel with
+  | zero =>
+    intro k a b _ _ gc _ _ hsim
+    simp only [passNodes.go]
+    exact ⟨gc, b, rfl, hsim⟩
+  | succ fl ih =>
+    intro k a b hkf g gc hsc ph hsim
+    simp only [passNodes.go]
+    have step := passNode_sim H st nodes d0 f fs first last hfl pre n post hsplit a b k (by omega) g gc hsc hsim
+    cases hp : passNode st first last a n k with
+    | error m =>
+      rw [hp] at step
+      simp only at step ⊢
+      rw [step, hsim.2.2.2.1]
+    | ok a1 =>
+      rw [hp] at step
+      obtain ⟨gc1, b1, e1, sim1⟩ := step
+      simp only [e1]
+      obtain ⟨g1, sc1, ph1, _⟩ := passNode_good st nodes d0 f first last pre n post hsplit a a1 k (by omega) g hsc ph hp
+      have hsc1 : stepCtx st a1.symCtx n = ctxAfter st [] (pre ++ [n]) := by
+        rw [sc1, ← hsc, stepCtx_idem]
+      exact ih (k + 1) a1 b1 (by omega) g1 gc1 hsc1 ph1 sim1
+
+theorem passNodes_sim (H : Nat → Bool) (st : Static) (nodes : List AstNode) (d0 : Defs) (f : FrontOK st nodes d0)
+    (fs : FrontOKS st nodes d0 H) (first last : Bool) (hfl : first = true → last = false) :
+    ∀ (rest pre : List AstNode) (a b : PassSt), nodes = pre ++ rest → Good st nodes d0 a.defs → GoodC st nodes d0 a.defs H →
+      a.symCtx = ctxAfter st [] pre → PhaseOK st nodes d0 first pre a.defs → SimPS H first a b →
+      match passNodes st first last rest a with
+      | .error e => passNodes (st.withStatic false) first last rest b = .error e
+      | .ok a' => GoodC st nodes d0 a'.defs H ∧
+          ∃ b', passNodes (st.withStatic false) first last rest b = .ok b' ∧ SimPS H first a' b' := by
+  intro rest
+  induction rest with
+  | nil =>
+    intro pre a b _ _ gc _ _ hsim
+    simp only [passNodes]
+    exact ⟨gc, b, rfl, hsim⟩
+  | cons n rest ih =>
+    intro pre a b hs g gc hsc ph hsim
+    rw [passNodes_cons, passNodes_cons]
+    have hsc0 : stepCtx st a.symCtx n = ctxAfter st [] (pre ++ [n]) := by rw [ctxAfter_snoc, hsc]
+    have step := go_sim H st nodes d0 f fs first last hfl pre n rest hs (nodeElems n) 0 a b (by omega) g gc hsc0 ph hsim
+    cases hg : passNodes.go st first last n 0 (nodeElems n) a with
+    | error e =>
+      rw [hg] at step
+      simp only at step ⊢
+      rw [step]
+    | ok a1 =>
+      rw [hg] at step
+      obtain ⟨gc1, b1, e1, sim1⟩ := step
+      simp only [e1]
+      obtain ⟨g1, _, ph1, c1, c0, r1⟩ := go_good st nodes d0 f first last pre n rest hs (nodeElems n) 0 a a1 (by omega) g hsc0 ph hg
+      have hsc1 : a1.symCtx = ctxAfter st [] (pre ++ [n]) := by
+        cases hz : nodeElems n with
+        | zero =>
+          rw [c0 hz, hsc, ctxAfter_snoc, nodeElems_pos_of_symbol st _ n hz]
+        | succ m => exact c1 (by rw [hz]; exact Nat.succ_pos m)
+      have ph1' : PhaseOK st nodes d0 first (pre ++ [n]) a1.defs := by
+        unfold PhaseOK at ph1 ⊢
+        cases first with
+        | false => simpa using ph1
+        | true =>
+          simp only [if_true] at ph1 ⊢
+          refine ⟨ph1.1, fun l nm e ne r hm hk => ?_⟩
+          rcases List.mem_append.mp hm with hm | hm
+          · exact ph1.2 l nm e ne r hm hk
+          · have hn : n = .symbol l nm (.constant e) ne (some r) := by
+              cases hm with
+              | head => rfl
+              | tail _ hm => cases hm
+            have hpos : 0 < nodeElems n := by rw [hn]; simp [nodeElems]
+            exact r1 hpos rfl l nm e ne r hn hk
+      exact ih (pre ++ [n]) a1 b1 (by rw [hs]; simp) g1 gc1 hsc1 ph1' sim1
+
+/-- **one pass under the two settings**: the same error, or the same values and messages; the same
+    stability flag in every pass but the first, where the unoptimised assembler may report a change
+    the optimised one does not -/
+theorem resolveOnce_sim (H : Nat → Bool) (st : Static) (nodes : List AstNode) (d0 : Defs) (f : FrontOK st nodes d0)
+    (fs : FrontOKS st nodes d0 H) (first last : Bool) (hfl : first = true → last = false)
+    (d : Defs) (g : Good st nodes d0 d) (gc : GoodC st nodes d0 d H)
+    (ph : if first = true then st.opts.optStatic = true else K3 nodes d0 d) :
+    match resolveOnce st nodes first last d with
+    | .error e => resolveOnce (st.withStatic false) nodes first last (d.unfS H) = .error e
+    | .ok (d', s, r) => GoodC st nodes d0 d' H ∧
+        ∃ s2, resolveOnce (st.withStatic false) nodes first last (d.unfS H) = .ok (d'.unfS H, s2, r) ∧
+          (s2 = true → s = true) ∧ (first = false → s2 = s) := by
+  unfold resolveOnce
+  have ph0 : PhaseOK st nodes d0 first [] d := by
+    unfold PhaseOK
+    cases first with
+    | true => simp only [if_true] at ph ⊢; exact ⟨ph, fun _ _ _ _ _ hm => by cases hm⟩
+    | false => simpa using ph
+  have hb : (d.unfS H).banks = d.banks := rfl
+  rw [hb]
+  have step := passNodes_sim H st nodes d0 f fs first last hfl nodes [] ⟨d, initIter d.banks, [], true, []⟩
+    ⟨d.unfS H, initIter d.banks, [], true, []⟩ rfl g gc rfl ph0 ⟨rfl, rfl, rfl, rfl, id, fun _ => rfl⟩
+  cases hp : passNodes st first last nodes ⟨d, initIter d.banks, [], true, []⟩ with
+  | error e =>
+    rw [hp] at step
+    simp only at step ⊢
+    rw [step]
+  | ok a' =>
+    rw [hp] at step
+    obtain ⟨gc', b', e', h1, h2, h3, h4, h5, h6⟩ := step
+    simp only [e']
+    exact ⟨gc', b'.stable, by rw [h1, h4], h5, h6⟩
+
 end Casm
